@@ -419,6 +419,12 @@ class FromArgs(Generic[T]):
         return bool(self._i_to_arg)
 
     def to_tuple(self) -> Tuple[T, ...]:
+        # The indices have to be exactly 0..n-1, otherwise an arg which was
+        # emitted with one of them would point outside of the table
+        if sorted(self._i_to_arg) != list(range(len(self._i_to_arg))):
+            raise ValueError(
+                f"The indices of the args leave gaps: {sorted(self._i_to_arg)}"
+            )
         return tuple(v for _, v, in sorted(self._i_to_arg.items()))
 
     def add(self, arg: T, index_override: Optional[int]) -> int:
